@@ -81,8 +81,8 @@ class JSplit:
         return out
 
     def expected(self, xs, pts):
-        """vertex list the statement prescribes: on every edge the distinct nodes that are not
-        within 1e-6 of 0 or 1, in increasing order (decided on shadow values: the order is fixed
+        """vertex list the statement prescribes: on every edge the nodes that are not within 1e-6 of 0 or 1 and not
+        within 1e-6 of the previous junction, in increasing order (decided on shadow values: the order is fixed
         on a path because the library sorted the nodes)"""
         n = len(pts)
         out = []
@@ -97,7 +97,7 @@ class JSplit:
                 v = val(x)
                 if v < TOL6 or 1 - v < TOL6:
                     continue
-                if last is not None and v == last:
+                if last is not None and v - last < TOL6:  # a parameter closer than the tolerance to the previous junction is ignored
                     continue
                 last = v
                 out.append((a[0] + x * (b[0] - a[0]), a[1] + x * (b[1] - a[1])))
